@@ -10,6 +10,7 @@ GRAPHS = {
     "g6b": (["src", "src2", "p", "j"], 3),
     "g7": (["src", "p", "q", "r"], 3),
     "g8b": (["src", "ps", "p"], 2),
+    "g8c": (["src", "ps", "pp", "p", "q"], 4),
     "g11": (["src", "p", "last"], 2),
 }
 
@@ -33,6 +34,8 @@ def setup(J):
             if q and g in ("g6",):
                 continue
             hows = ("name", "regex", "procs") if (not q or g in ("g3", "g8b", "g11")) else ("name",)
+            if q and g == "g8c":
+                hows = ("name",)
             for n in range(1, len(procs) + 1):
                 for sub in itertools.combinations(procs, n):
                     for how in hows:
